@@ -9,13 +9,13 @@ CHECKS = {
    text="Every generated message is encoded by the library and by an independent reference codec and compared byte for byte, decoded back and compared field by field; every byte string a decoder accepts must re-encode verbatim; >400000 consecutive automatic ids are strict-parsed. Boundary cross product is enumerated, the rest is seeded random sampling: held on the cases run, not proved. Also 2..16 goroutines drawing automatic identifiers at once through more than a thousand wraps per run. Decoded packets are also changed through single setters (on fresh and on reused message objects) and must encode to the reference encoding of the fields they then report. The accepted-bytes check also runs over the C04 mutation corpus; built messages are changed through a setter after their first Encode and encoded again.",
    note="trusted: harness/refcodec (written from the OASIS text); raw flag setters without their value are outside 'built through the API'", ref="3/C03"),
  "C04": dict(cat="exploration", tech="runtime monitor (recover + address-range + reference-decoder oracle) over systematic mutations of valid packets and random bytes, cap==len inputs",
-   text="All 14 decoders run on >1.3M (quick) hostile inputs derived systematically from valid packets (all prefixes, all single-bit flips, length/flag rewrites) and random bytes, each in a slice with cap==len so any over-read is a bounds panic; oracle checks no panic, byte count, field address ranges and acceptance of strict-valid packets. Every input is decoded a second time into a long-lived, much-used message object of the type: same verdict, count and fields, nothing outside the input.",
+   text="All 14 decoders run on >1.3M (quick) hostile inputs derived systematically from valid packets (all prefixes, all single-bit flips, length/flag rewrites) and random bytes, each in a slice with cap==len so any over-read is a bounds panic; oracle checks no panic, byte count, field address ranges and acceptance of strict-valid packets. Every input is decoded a second time into a long-lived, much-used message object of the type: same verdict, count and fields, nothing outside the input. Accepted packets are also decoded from a buffer with bytes behind them and changed through the setters: those bytes must stay untouched.",
    note="no unsafe/cgo in the library, so Go bounds checks make over-reads observable; reference decoder defines 'well-formed'", ref="3/C04"),
  "C06": dict(cat="exploration", tech="reference-model oracle (MQTT 4.7 matcher + map model) over an exhaustive small scope and random API histories of topics.NewMemProvider()",
    text="All 779 filters of <=4 levels over {a,b,empty,+,#} x all names of <=4 levels over {a,b,empty} x 3 QoS are decided against the specification matcher on the real topic store (Subscribers and Retained), and thousands of random subscribe/unsubscribe/retain histories are compared with a map model after every operation. Exhaustive for that scope only; histories are sampled. Concurrent histories (one subscriber per goroutine, untouched bystanders, union of the models at quiescence) are checked as well. Result slices are reused across lookups as the service does; every history ends by draining the store.",
    note="trusted: spec.Match (20 lines from section 4.7); known finding F-C06-1 (empty levels) is recognised by a classifier predicate, anything else is reported", ref="3/C06"),
  "C13": dict(cat="exploration", tech="list-model oracle over exhaustively enumerated operation sequences and random histories; porcupine linearizability check of concurrent histories",
-   text="Every register/ack/collect sequence up to depth 6 (ids {1,2}) and 5 (ids {1,2,3}) is executed on a fresh real queue and compared with a FIFO list model incl. byte-identity of the copies; long random histories exercise growth and wrap; concurrent histories are checked with porcupine. Bounded exhaustive + sampling. Growth of a full, wrapped queue while an acknowledgement is in progress is enumerated separately (ack message with a dwelling Encode). Lists handed back by Acked are kept and must stay unchanged by later calls. Requests sized at the boundaries of the remaining-length field must be handed back byte-identical.",
+   text="Every register/ack/collect sequence up to depth 6 (ids {1,2}) and 5 (ids {1,2,3}) is executed on a fresh real queue and compared with a FIFO list model incl. byte-identity of the copies; long random histories exercise growth and wrap; concurrent histories are checked with porcupine. Bounded exhaustive + sampling. Growth of a full, wrapped queue while an acknowledgement is in progress is enumerated separately (ack message with a dwelling Encode). Lists handed back by Acked are kept and must stay unchanged by later calls. Requests sized at the boundaries of the remaining-length field must be handed back byte-identical. An identifier whose entry is finished but not yet collected is free for a new registration; acknowledgements of one kind vary in length.",
    note="trusted: the 60-line list model; porcupine v1.3.0", ref="3/C13"),
  "C14": dict(cat="exploration", tech="stream-position oracle on the real ring (every obtained byte verified at its committed offset), enumerated op x offset x chunk matrix, concurrent SPSC stress incl. Go race detector",
    text="All producer-op x consumer-op x wrap-position x chunk-size cells are executed single-threaded, then hundreds of MiB are moved between a producer and a consumer goroutine with seeded op mixes at three GOMAXPROCS values, with peeked slices re-verified before commit; the same workload runs under -race. Held on the executions run. Close cells: a producer parked for space is ended by Close and the consumer drains or holds a peeked slice. Rings are also asked for with sizes that are not powers of two.",
@@ -36,7 +36,7 @@ CHECKS = {
    text="Every way a connection can end in the harness (7 endings incl. injected read errors and virtual-time keep-alive expiry) is crossed with will parameters and CleanSession histories; the witness must see this connection's will exactly once, or never after DISCONNECT. Also: final bytes delivered together with io.EOF by the transport, and refused CONNECTs naming the victim client id under an authenticator. Also: the connection's processor parked on its own full outgoing ring when the connection ends.",
    note="trusted: synctest virtual time; teardown-finished hook events counted per connection", ref="3/C09"),
  "C10": dict(cat="exploration", tech="session-model monitor over wire histories at synctest quiescence (CONNACK flag + probe publishes)",
-   text="Generated connect/subscribe/unsubscribe/end histories over three client ids; SessionPresent and the set of active subscriptions after every (re)connect are compared with a model of the state kept by CleanSession=0 connections, using probe publishes and the C01 delivery oracle. Also: sessions of 1000..40000 filters probed the instant the first PINGRESP is read (real time), and resume attempts over a transport whose CONNACK write fails.",
+   text="Generated connect/subscribe/unsubscribe/end histories over three client ids; SessionPresent and the set of active subscriptions after every (re)connect are compared with a model of the state kept by CleanSession=0 connections, using probe publishes and the C01 delivery oracle. Also: sessions of 1000..40000 filters probed the instant the first PINGRESP is read (real time), and resume attempts over a transport whose CONNACK write fails. Every third CONNECT carries a will.",
    note="trusted: synctest quiescence, the 20-line session model", ref="3/C10"),
  "C11": dict(cat="exploration", tech="first-packet product monitor at synctest quiescence with witness subscriber, retained-store and session probes; virtual-time connect timeout",
    text="About 1600 first packets (all types, CONNECT field/flag product, malformed variants) under three authenticators, each followed by a tail of effective packets; answers and absence of any effect are checked at quiescence. Every first packet is also sent in two pieces and byte by byte / in three pieces, and with 5 KiB / 64 KiB wills. Groups of acceptable CONNECTs sent at the same moment (same new client id or different ids) must all be answered with CONNACK 0. Connections without an accepted CONNECT must not delay a new client's CONNACK (broker process behind a real listener).",
@@ -45,25 +45,25 @@ CHECKS = {
    text="All 84 combinations of K and activity pattern run in virtual time; drop time after the last byte is measured exactly (observed 1.2 K), active clients survive 50 intervals, expiry publishes the will once. Now 138 pattern runs (mid-packet silence, uneven pacing just inside K, pings behind a near-ring-size packet) plus real-time window cells in which the expiry meets a goroutine held in its check-to-Wait window. A successor connection with the same client id that is active must survive the silent one's expiry, and the will published is the silent connection's. A client that stopped reading and filled its own outgoing ring before falling silent must be dropped like any other.",
    note="virtual clock for the pattern runs; the window cells run in real time with hook events, not deadlines, deciding", ref="3/C19"),
  "C02": dict(cat="exploration", tech="per-packet wire oracle over enumerated and sampled QoS 1/2 scripts at synctest quiescence (acks on the publisher's wire, hand-overs on a QoS 2 subscriber's wire)",
-   text="All scripts up to length 5 over a 6-token alphabet and thousands of longer sampled ones; after every packet the exact acks and hand-overs are compared with the QoS 2 receiver state machine, incl. DUPs with different content and ring-wrapping filler. Plus burst scripts (17..48 exchanges open at once, both roles), sender reconnects, and pipelined bursts of more than three ring sizes written while the subscriber is stalled (acknowledgements and hand-overs compared with the packet order at quiescence).",
+   text="All scripts up to length 5 over a 6-token alphabet and thousands of longer sampled ones; after every packet the exact acks and hand-overs are compared with the QoS 2 receiver state machine, incl. DUPs with different content and ring-wrapping filler. Plus burst scripts (17..48 exchanges open at once, both roles), sender reconnects, and pipelined bursts of more than three ring sizes written while the subscriber is stalled (acknowledgements and hand-overs compared with the packet order at quiescence). A PUBLISH after the PUBREL of its identifier counts as a new exchange (out-of-order releases included); a quarter of the exchanges start with a copy flagged DUP.",
    note="broker role; client role via scripted peer (see DESIGN)", ref="3/C02"),
  "C12": dict(cat="exploration", tech="event-log oracle over client-API completions vs a scripted TCP peer (global sequence stamps), yield-hook forced ack-before-register interleaving, wire-id monitor on a raw subscriber",
    text="Completion callbacks and peer acks are stamped from one counter; exactly-once, not-before-ack and completed-by-barrier are checked for generated ack orders; the adverse interleaving is forced deterministically through the verif yield point and the proc.handled event; forwarded packet identifiers in flight are checked on the subscriber's wire. Also: 2..4 clients used by 4..8 goroutines each with all acknowledgements withheld (identifiers in flight distinct, completions exactly once), and identifier wrap-around caused by another client in the process. A quarter of the scripted requests carry no completion function. Requests larger than the client's buffer must return, never complete, and not hold up the others.",
    note="real TCP/real time with a protocol barrier; one session at a time per child process", ref="3/C12"),
  "C20": dict(cat="exploration", tech="scripted-peer monitor of Client.Connect results and callback dispatch; goroutine-snapshot leak check",
-   text="27 CONNACK answers and hundreds of generated subscribe/unsubscribe/inbound-publish sessions; per-request callback invocation counts are compared with the MQTT matcher after a protocol barrier; goroutine snapshots show no library frame after failed Connect / Disconnect. Also: a burst of deliveries followed at once by the end of the stream (callbacks counted at the teardown-finished event). A third of the Subscribe/Unsubscribe calls are held right after writing the request until the acknowledgement was handled. Several Clients of one process sharing a client identifier towards different servers.",
+   text="27 CONNACK answers and hundreds of generated subscribe/unsubscribe/inbound-publish sessions; per-request callback invocation counts are compared with the MQTT matcher after a protocol barrier; goroutine snapshots show no library frame after failed Connect / Disconnect. Also: a burst of deliveries followed at once by the end of the stream (callbacks counted at the teardown-finished event). A third of the Subscribe/Unsubscribe calls are held right after writing the request until the acknowledgement was handled. Several Clients of one process sharing a client identifier towards different servers. The CONNACK cases and every fourth dispatch session also run over TLS through ConnectTLS.",
    note="real TCP on 127.0.0.1; leak check by stack frames under the library import path", ref="3/C20"),
  "C16": dict(cat="fault_enumeration", tech="enumerated teardown matrix at synctest quiescence; teardown-finished hook events, witness client, goroutine-snapshot leak check, process-wide deadlock watchdog",
-   text="All 160 cause x buffer-condition x order x will x CleanSession cells are executed against the real broker with really full rings (clients that stop reading); completion of teardown is decided from hook events and goroutine state at quiescence. Since extended to 232 cells (an incomplete near-ring-size message in the inbound ring as a fifth condition), 32 pipelined cells (ending packet behind a held-up delivery) and 36 real-time window cells where the yield hook holds a goroutine between its done-check and Cond.Wait while the connection ends, keep-alive expiry included. A third of the cells have refused ('$') publishes in their history; wills larger than the rings must not keep a teardown from finishing. Condition own-out-full: the connection's own processor parked on its own full outgoing ring; keep-alive expiry must tear it down before anybody closes anything.",
+   text="All 160 cause x buffer-condition x order x will x CleanSession cells are executed against the real broker with really full rings (clients that stop reading); completion of teardown is decided from hook events and goroutine state at quiescence. Since extended to 232 cells (an incomplete near-ring-size message in the inbound ring as a fifth condition), 32 pipelined cells (ending packet behind a held-up delivery) and 36 real-time window cells where the yield hook holds a goroutine between its done-check and Cond.Wait while the connection ends, keep-alive expiry included. A third of the cells have refused ('$') publishes in their history; wills larger than the rings must not keep a teardown from finishing. Condition own-out-full: the connection's own processor parked on its own full outgoing ring; keep-alive expiry must tear it down before anybody closes anything. The fronts workload (TCP/TLS accept loops, websocket proxy) ends with Server.Close and a no-goroutine-left check.",
    note="bounded time = quiescence reached with all goroutines gone; watchdog expiry without an all-parked snapshot is inconclusive", ref="3/C16"),
  "C17": dict(cat="exploration", tech="strict reference-parser monitor on every subscriber stream + per-(subscriber,publisher,topic,QoS) sequence monitor under concurrent stress, also with the Go race detector",
-   text="Dozens of concurrent runs with up to 12 publishers, slow/bursty subscribers, in-process publishers, retained updates and churning clients; every received byte is strict-parsed, every payload CRC-checked, sequence numbers per publisher/topic/QoS must increase. Held on the executed schedules. A stored session is resumed dozens of times while 9..30 KiB messages pour into its subscription: CONNACK first, whole packets only.",
+   text="Dozens of concurrent runs with up to 12 publishers, slow/bursty subscribers, in-process publishers, retained updates and churning clients; every received byte is strict-parsed, every payload CRC-checked, sequence numbers per publisher/topic/QoS must increase. Held on the executed schedules. A stored session is resumed dozens of times while 9..30 KiB messages pour into its subscription: CONNACK first, whole packets only. The same workload also runs through the library's TCP accept loop, TLS accept loop (1.3 and 1.2) and websocket proxy, each publisher ending with a message right before it closes.",
    note="real time over net.Pipe; quiescence by protocol barriers", ref="3/C17"),
  "C18": dict(cat="exploration", tech="Go race detector (-race, reports parsed from GORACE logs) over concurrent broker, ring and ack-queue workloads with measured overlap counters",
    text="The race detector observes workloads W1-W7; any report with a library frame is a violation keyed by the pair of innermost library functions; overlap counters (e.g. thousands of deliveries entering writeMessage during the target's teardown) are measured in the same processes and must exceed floors. Workload W8 lets two connections of one stored session work off acknowledgements at the same time. Workload W9: several library Clients of one process connecting and disconnecting at once.",
    note="absence of reports on executed schedules only; W7 (same client id reconnecting during teardown) was open finding F-C18-1 until repair b5ad4f5", ref="3/C18"),
  "C05": dict(cat="fault_enumeration", tech="out-of-process broker under enumerated hostile connections with a witness publisher/subscriber pair and an idle observer as monitors; exit status/stderr capture",
-   text="More than a thousand attack connections per quick run (truncations at every offset, field corruptions, mutated packets of all types, oversized packets, forbidden packets, cuts and teardown racing deliveries) against real broker processes over TCP; after each, process liveness, bystander connections and the exact witness sequence are checked. Also in-process: several publishers delivering to a stalled subscriber at the moment it is cut must all survive and keep working. Also: well-framed short CONNECTs, mutated CONNECTs as first packet, and wills larger than the configured rings (a CONNECT bypasses the ring) whose delivery must neither wedge a subscriber nor the teardown.",
+   text="More than a thousand attack connections per quick run (truncations at every offset, field corruptions, mutated packets of all types, oversized packets, forbidden packets, cuts and teardown racing deliveries) against real broker processes over TCP; after each, process liveness, bystander connections and the exact witness sequence are checked. Also in-process: several publishers delivering to a stalled subscriber at the moment it is cut must all survive and keep working. Also: well-framed short CONNECTs, mutated CONNECTs as first packet, and wills larger than the configured rings (a CONNECT bypasses the ring) whose delivery must neither wedge a subscriber nor the teardown. Includes same-identifier churn against a 2000-filter session.",
    note="the broker is a child process so a crash is observable and contained; every case is logged before it is sent", ref="3/C05"),
 }
 PENDING = {}
